@@ -396,7 +396,7 @@ def _schedules(ctx) -> None:
                       P.run_case(ctx.scratch, c01._fix_case(case), between_steps_chooser(rname, r, wnames), tag="c02e"))
                      for r in rs]
             if not quick or ai % 4 == ei % 4:
-                eruns += list(c01.explore(ctx, case, 2, 3 if quick else 120))
+                eruns += list(c01.explore(ctx, case, 2, 3 if quick else 40))
             for dev, res in eruns:
                 total += 1
                 ctx.count(1, ("empty", ei, api, tuple(res.schedule)))
